@@ -343,6 +343,7 @@ def r4_id_address(r, facts):
     f = facts.fn(INIT_BUFFER)
     eb = ExprBuilder(f, multi='phi')
     ok = False
+    strides = {}
     for loc, t in f.calls():
         if (t.get('callee') or '') == 'std::ptr::NonNull::<[T]>::slice_from_raw_parts' and is_local(t['dest'], 0):
             p = eb.operand(t['args'][0])
@@ -350,8 +351,10 @@ def r4_id_address(r, facts):
             if adds:
                 base, off = adds[0][2][0], strip_casts(adds[0][2][1])
                 okb = fam.last_field(base) == 'bufs_addr'
-                okm = off[0] == 'bin' and off[1].startswith('Mul') and any(_is_id(strip_casts(y)) for y in (off[2], off[3])) and any(_is_buf_size(y) for y in (off[2], off[3]))
+                okm = off[0] == 'bin' and off[1].startswith('Mul') and any(_is_id(strip_casts(y)) for y in (off[2], off[3])) and any(_stride(y) for y in (off[2], off[3]))
                 ok = okb and okm
+                if okm:
+                    strides['init_buffer (id -> address)'] = [_stride(y) for y in (off[2], off[3]) if _stride(y)][0]
                 if okm:
                     for y in (off[2], off[3]):
                         if y[0] == 'cast' and y[1] == 'IntToInt' and y[3] not in ('usize', 'isize', 'u64', 'i64'):
@@ -374,7 +377,9 @@ def r4_id_address(r, facts):
             a, ln, bid = strip_casts(fl['addr']), fl['len'], strip_casts(fl['bid'])
             oka = a[0] == 'call' and a[1].endswith('::addr') and a[2][0][0] == 'arg' and a[2][0][1] == 2
             okl = fam.last_field(ln) == 'buf_size'
-            okb = bid[0] == 'bin' and bid[1] == 'Div' and _is_buf_size(bid[3])
+            okb = bid[0] == 'bin' and bid[1] == 'Div' and _stride(bid[3]) is not None
+            if okb:
+                strides['release (address -> id)'] = _stride(bid[3])
             num = strip_casts(bid[2]) if okb else None
             # the byte offset into the pool and the stride must be divided in full width: any narrowing
             # cast between offset_from and the division truncates offsets of pools >= 4 GiB
@@ -409,14 +414,35 @@ def r4_id_address(r, facts):
                 off = strip_casts(adds[0][2][1])
                 if off[0] == 'bin' and off[1].startswith('Mul'):
                     idxs = [strip_casts(y) for y in (off[2], off[3]) if strip_casts(y) == bid]
-                    def _is_stride(y):
-                        y = strip_casts(y)
-                        return (y[0] == 'arg' and y[2] == 'buf_size') or (y[0] == 'call' and y[1] == POOL + '::buf_size') or fam.last_field(y) == 'buf_size'
-                    strides = [y for y in (off[2], off[3]) if _is_stride(y)]
+                    strides_n = [y for y in (off[2], off[3]) if _stride(y)]
+                    if strides_n:
+                        strides['new (initial offer)'] = _stride(strides_n[0])
                     base = adds[0][2][0]
-                    okn = bool(idxs) and bool(strides) and any(x[0] == 'call' and x[1] in ('std::alloc::alloc',) for x in subexprs(base)) and ln[0] == 'arg' and ln[2] == 'buf_size'
+                    okn = bool(idxs) and bool(strides_n) and any(x[0] == 'call' and x[1] in ('std::alloc::alloc',) for x in subexprs(base)) and ln[0] == 'arg' and ln[2] == 'buf_size'
             r.inst('new() offers addr=%s.. bid=%s..' % (str(fl['addr'])[:80], str(fl['bid'])[:60]), n.where(loc))
     r.require(okn, 'new/entries', 'new() does not offer addr = bufs + i*buf_size with bid = i, len = buf_size', n.where())
+    # the allocation the buffers live in spans pool_size * stride
+    found_alloc = False
+    for af in facts.fns(r'^io_uring::io::'):
+        if 'closure' in af.path:
+            continue
+        ea = None
+        for loc, t in af.calls():
+            if (t.get('callee') or '').endswith('Layout::from_size_align') and t['args']:
+                ea = ea or ExprBuilder(af, multi='phi')
+                sz = strip_casts(ea.operand(t['args'][0]))
+                if sz[0] == 'proj' and sz[1][0] == 'bin':
+                    sz = sz[1]
+                if sz[0] == 'bin' and sz[1].startswith('Mul'):
+                    st = [_stride(y) for y in (sz[2], sz[3]) if _stride(y)]
+                    if st:
+                        found_alloc = True
+                        strides['allocation (pool_size * stride) in %s' % af.path.rsplit('::', 1)[-1]] = st[0]
+                        r.inst('buffers allocated as %s' % (str(sz)[:100],), af.where(loc))
+    r.require(found_alloc, 'allocation', 'the allocation of the pool buffers (Layout::from_size_align(pool_size * buf_size, ..)) was not found (unrecognised form)', n.where())
+    # the two directions of the id <-> address mapping use one stride
+    r.inst('buffer stride: %s' % (strides,), n.where())
+    r.require(len(set(strides.values())) <= 1, 'stride-agreement', 'the distance between two pool buffers differs between %s: the id derived from a released address is not the id whose address was handed out (another, possibly owned, buffer is re-offered to the kernel)' % ', '.join('%s: %s' % (k, '.'.join(v)) for k, v in sorted(strides.items())), g.where())
     # ids come from CompletionFlags::buf_id
     b = facts.fn('io_uring::op::CompletionFlags::buf_id')
     ebb = ExprBuilder(b, multi='phi')
@@ -453,7 +479,19 @@ def _is_id(e):
 
 def _is_buf_size(e):
     e = strip_casts(e)
-    return fam.last_field(e) == 'buf_size' or (e[0] == 'call' and e[1] == POOL + '::buf_size')
+    return fam.last_field(e) == 'buf_size' or (e[0] == 'call' and e[1] == POOL + '::buf_size') or (e[0] == 'arg' and e[2] == 'buf_size')
+
+
+def _stride(e):
+    """normal form of the distance between two pool buffers: ('size',) = buf_size itself, ('size-rounded-up', m) =
+    buf_size.next_multiple_of(m) (never smaller than buf_size, so buffers cannot overlap); None = not recognised."""
+    e = strip_casts(e)
+    if _is_buf_size(e):
+        return ('size',)
+    if e[0] == 'call' and e[1].endswith('next_multiple_of') and len(e[2]) == 2 and _is_buf_size(e[2][0]):
+        m = strip_casts(e[2][1])
+        return ('size-rounded-up', str(m[2] if m[0] == 'const' else m))
+    return None
 
 
 def buffer_select_ops(facts):
